@@ -202,12 +202,35 @@ def replay_next_id(model, rec):
         ids = set(rnd.sample(range(0, 256), rnd.randint(0, 6)))
         if rnd.random() < 0.3:
             ids |= {rnd.choice([253, 254, 255])}
-        for i in ids:
+        order = list(ids)
+        rnd.shuffle(order)  # the order in which nodes became known must not matter
+        for i in order:
             gw.sensors[i] = mysensors.Sensor(i)
         r = gw._get_next_id()
         if r is not None and not (1 <= r <= 254 and r not in ids):
-            return True, f"known nodes {sorted(ids)}: _get_next_id() = {r}"
-    return False, "random node sets agree"
+            return True, f"nodes became known in the order {order}: _get_next_id() = {r}"
+    # histories of presentations (any order of ids) and id requests through logic: every id handed out is fresh
+    from unittest import mock
+
+    for _ in range(300):
+        gw = mysensors.Gateway(protocol_version="2.0")
+        gw.tasks = mysensors.task.SyncTasks(gw.const, False, "x.json", gw.sensors, mock.MagicMock())
+        handed, hist = set(), []
+        for _step in range(rnd.randint(2, 8)):
+            if rnd.random() < 0.5:
+                n = rnd.choice([0, 1, 2, 5, 6, 7, 9, 10, 11, 200, 253, 254])
+                hist.append(f"present {n}")
+                gw.logic(f"{n};255;0;0;17;2.0\n")
+            else:
+                known = set(gw.sensors)
+                r = gw.logic("255;255;3;0;3;\n")
+                hist.append("id request")
+                if r is not None:
+                    got = int(r.rstrip().split(";")[5])
+                    if not (1 <= got <= 254) or got in known or got in handed:
+                        return True, f"history {hist}: the id response carries {got}; known nodes {sorted(known)}, handed out before {sorted(handed)}"
+                    handed.add(got)
+    return False, "random node sets and histories agree"
 
 
 def replay_codec(model, rec):
